@@ -41,7 +41,7 @@ CLAIMED = {
  "C02": (
   "Coq theorems (coq/Properties/C02.v, axiom-free): for every shape (lists and maps of unsized elements and generated enums at any depth included), "
   "after ANY history of list operations at any nesting depth - failing operations included - the first data_len bytes are exactly "
-  "encode(value) and data_len = byte_size(value) (C02_general_canonical_after_any_history, from the refinement invariant RepF); for "
+  "encode(value) and data_len = byte_size(value) (C02_general_canonical_after_any_history, from the refinement invariant RepF), and the same after any interleaving of EVERY operation the theory knows - keyed views, set_from_owned, variant switches of generated enums (C02_canonical_after_any_full_history); for "
   "ALL shapes canonical encodings have the announced size, are injective and are read back as the same value by any reader "
   "(C02_encode_injective, C02_any_reader_sees_the_value). Tie: after every step of 1.2k (quick) / 12k (thorough) histories the harness "
   "compares the account bytes with from_owned(value read back) byte for byte and the reported length with byte_size, and the extracted "
@@ -57,7 +57,7 @@ CLAIMED = {
   "lies in the buffer's range, so an accessor swapped in from another buffer is reported at the latest by the drop-time check "
   "(C03_swapped_accessor_detected). Every shape (enums included), list operations at any nesting depth, failures included: the outcome of a "
   "history is never Fault nor Panic and the pointer assertions hold in every reachable state (C03_general_no_fault_in_any_history, "
-  "C03_general_pointer_assertions_hold); growth beyond the allocation is InvalidRealloc before any memmove. "
+  "C03_general_pointer_assertions_hold; C03_no_fault_in_any_full_history for every operation the theory knows, keyed views, set_from_owned and enum variant switches included); growth beyond the allocation is InvalidRealloc before any memmove. "
   "Tie: histories run on an mmap'ed allocation of exactly initial+10240 bytes flush against a PROT_NONE page (before or after) with "
   "canaries on the other side, each case in a forked child: SIGSEGV and canary damage are observations; 40 accessor-swap scenarios on two "
   "buffers; allowance-scale histories that shift a stale inner pointer (D26).",
